@@ -2,6 +2,7 @@ package props
 
 import (
 	"fmt"
+	"go/token"
 	"go/types"
 	"sort"
 	"strings"
@@ -238,6 +239,45 @@ func runC08(p *core.Program, r *core.Report) {
 			"writes package-level state: "+strings.Join(bad, "; ")+" — two goroutines compiling or running at the same time race on it")
 	}
 
+	// R8.3: an option's closure does not store a caller-owned slice or map (one of the option
+	// constructor's own arguments, captured by the closure) into the configuration by alias: Compile
+	// appends to / updates the configuration's collections, and the option value is shared by every
+	// Compile call that reuses it
+	for _, fn := range ef.Funcs {
+		if fn.Parent() == nil {
+			continue
+		}
+		key := ef.FuncKey(fn) + "/stores no captured collection by alias"
+		var bad []string
+		pos := p.Pos(fn.Pos())
+		check := func(v ssa.Value, at token.Pos) {
+			switch v.Type().Underlying().(type) {
+			case *types.Slice, *types.Map:
+			default:
+				return
+			}
+			for _, rt := range ef.RootsOf(v) {
+				if rt.Kind == eng.RootParam && !strings.HasPrefix(rt.Detail, fn.Name()+".") {
+					bad = append(bad, fmt.Sprintf("%s (argument %s of the enclosing function) stored at %s", v.Name(), rt.Detail, p.Pos(at)))
+					pos = p.Pos(at)
+				}
+			}
+		}
+		for _, b := range fn.Blocks {
+			for _, in := range b.Instrs {
+				switch x := in.(type) {
+				case *ssa.Store:
+					if _, isAlloc := x.Addr.(*ssa.Alloc); !isAlloc {
+						check(x.Val, x.Pos())
+					}
+				case *ssa.MapUpdate:
+					check(x.Value, x.Pos())
+				}
+			}
+		}
+		r.Check(len(bad) == 0, "R8.3", key, pos, "no slice or map captured from the enclosing function is stored into a longer-lived object", strings.Join(bad, "; ")+" — the configuration now shares its backing array with the caller's option value; a later append or update during Compile writes into memory that every Compile call reusing the option shares: an unsynchronised write")
+	}
+	r.Floor("R8.3", 10)
 	globalEscapeRule(p, r, ef, "R8.6", "two goroutines compiling or running at the same time share it, and what one call does depends on what earlier calls left there")
 
 	// R8.1: run side
@@ -418,6 +458,7 @@ var sharedSafeMethods = map[string]string{
 
 func c08Controls() []core.Mutant {
 	return []core.Mutant{
+		{Name: "Operator option stores the caller's slice", File: "expr.go", Old: "\t\tc.Operators[operator] = append(c.Operators[operator], fn...)", New: "\t\tif len(c.Operators[operator]) == 0 {\n\t\t\tc.Operators[operator] = fn\n\t\t\treturn\n\t\t}\n\t\tc.Operators[operator] = append(c.Operators[operator], fn...)", Rule: "R8.3", Construct: "expr.Operator$1"},
 		{Name: "struct field tables memoised in a package-level sync.Map", File: "conf/types_table.go", Old: "func FieldsFromStruct(t reflect.Type) TypesTable {\n", New: "var fieldsCache sync.Map\n\nfunc FieldsFromStruct(t reflect.Type) TypesTable {\n\tif c, ok := fieldsCache.Load(t); ok {\n\t\tif tt, ok := c.(TypesTable); ok {\n\t\t\treturn tt\n\t\t}\n\t}\n", Edits: [][2]string{{"import \"reflect\"\n", "import (\n\t\"reflect\"\n\t\"sync\"\n)\n"}}, Rule: "R8.6", Construct: "conf.FieldsFromStruct"},
 		{Name: "package-level cache written by fetch", File: "vm/runtime.go", Old: "func fetch(from, i interface{}, nilsafe bool) interface{} {\n", New: "var fetchCache = map[interface{}]interface{}{}\n\nfunc fetch(from, i interface{}, nilsafe bool) interface{} {\n\tfetchCache[i] = from\n", Rule: "R8.4", Construct: "vm.fetch"},
 		{Name: "memo field on Program written by Run", File: "vm/program.go", Old: "type Program struct {\n", New: "type Program struct {\n\tRuns int\n", More: []core.FileEdit{{File: "vm/vm.go", Old: "\tvm.limit = MemoryBudget\n", New: "\tvm.limit = MemoryBudget\n\tprogram.Runs++\n"}}, Rule: "R8.1", Construct: "vm.(*VM).Run"},
